@@ -15,6 +15,12 @@ pub fn deadline_exceeded(deadline: Option<Instant>) -> bool {
     #[allow(unreachable_code)]
     match deadline {
         Some(deadline) => {
+            #[cfg(similar_verif)]
+            {
+                if let Some(expired) = verif_clock::probe() {
+                    return expired;
+                }
+            }
             #[cfg(all(target_arch = "wasm32", not(feature = "wasm32_web_time")))]
             {
                 return false;
@@ -34,4 +40,26 @@ pub fn duration_to_deadline(add: Duration) -> Option<Instant> {
         return None;
     }
     Instant::now().checked_add(add)
+}
+
+/// Verification hook (only with `--cfg similar_verif`): a virtual clock.
+///
+/// When an oracle is installed on the current thread, every deadline probe
+/// made while a deadline is present asks the oracle instead of the real clock.
+#[cfg(similar_verif)]
+pub mod verif_clock {
+    use std::cell::RefCell;
+
+    thread_local! {
+        static ORACLE: RefCell<Option<Box<dyn FnMut() -> bool>>> = RefCell::new(None);
+    }
+
+    /// Installs (or with `None` removes) the oracle of the current thread.
+    pub fn install(oracle: Option<Box<dyn FnMut() -> bool>>) {
+        ORACLE.with(|o| *o.borrow_mut() = oracle);
+    }
+
+    pub(crate) fn probe() -> Option<bool> {
+        ORACLE.with(|o| o.borrow_mut().as_mut().map(|f| f()))
+    }
 }
